@@ -52,7 +52,7 @@ def bisection_bound(before, sigma):
     return int(area / (ht_s * hx_s) * 1.001) + 1
 
 
-def grade_check(cfg, h, sigma, HLIMIT=None):
+def grade_check(cfg, h, sigma, HLIMIT=None, light=False):
     HLIMIT = HLIMIT or globals()['HLIMIT']
     m = build(cfg, h)
     before = leafset(m)
@@ -81,10 +81,11 @@ def grade_check(cfg, h, sigma, HLIMIT=None):
     bad = [a for a in after if not in_window(a, sigma)]
     if bad:
         errs.append(('outside-window', sorted(bad)[:3]))
-    base = build_ref(cfg, ())
-    post = ref_from_leaves(base, after)
-    errs += check_tiling(m, post)
-    errs += check_neighbours(m, post)
+    if not light:  # (light: window and refinement clauses only - meshes of 10^5 leaves)
+        base = build_ref(cfg, ())
+        post = ref_from_leaves(base, after)
+        errs += check_tiling(m, post)
+        errs += check_neighbours(m, post)
     return errs, len(after) - len(before)
 
 
@@ -186,6 +187,18 @@ def run(ctx):
             root = meshmc.deep_histories(cfgname, kk)['t0']
             meshmc.explore(ctx, cfgname, 0 if (ctx.tier == 'quick' or kk > 8) else 1, state_fn if kk == 8 else state_fn_frac, None, onv, stats=st, hlimit=HLIMIT, root=root,
                            label='{}+deep:t0x{}'.format(cfgname, kk))
+    # gradings that need MANY sweeps (each sweep bisects a leaf once): one-slab strips whose only leaf is 17 / 18 space bisections
+    # away from the window (2^17 .. 2^19 leaves afterwards)
+    if True:
+        for T_, s_ in (((2.0**-18, 1), ) if ctx.tier == 'quick' else ((2.0**-18, 1), (2.0**-36, 2), (2.0**-20, 1))):
+            cfg_ = ('plain', False, (0.0, 1.0), (0.0, T_))
+            e_, a_ = grade_check(cfg_, (), s_, HLIMIT=1500000, light=True)
+            st.extra['many_sweep_gradings'] = st.extra.get('many_sweep_gradings', 0) + 1
+            ctx.note('many-sweep grading on [0,1] x [0,{}] sigma={}: {} elements added, {}'.format(T_, s_, a_, 'ok' if not e_ else e_[0][0]))
+            for t_, d_ in e_:
+                ctx.violation({'cfg': 'strip', 'tag': t_ + '|many-sweeps', 'sigma': s_},
+                              'grading sigma={} K=4 on the one-element mesh [0,1] x [0,{}]: {}: {}'.format(s_, T_, t_, str(d_)[:300]),
+                              {'many_sweeps': [T_, s_]})
     # supplementary random histories (seeded; not part of the exhaustive claim)
     nrw = 0
     nund = 0
@@ -216,6 +229,11 @@ def run(ctx):
 
 
 def replay(ctx, data):
+    if data.get('many_sweeps'):
+        T_, s_ = data['many_sweeps']
+        e_, a_ = grade_check(('plain', False, (0.0, 1.0), (0.0, float(T_))), (), s_, HLIMIT=1500000, light=True)
+        print('elements added', a_, 'errors', [(t, str(d)[:200]) for t, d in e_])
+        return not e_
     cfg = CFGS[data['cfg']]
     h = tuple((tuple(r), ax) for r, ax in data['history'])
     if data.get('sequence'):
